@@ -241,6 +241,7 @@ package tokenizer
 // Entry points: the size limit is checked before anything else; the main loop (a closure) keeps the cursor
 // inside the input, never holds more than MaxTokens tokens, and terminates (variant: bytes left).
 //@ func (*Tokenizer).Tokenize$1
+//@   loop 1 invariant @C09 isnew(tokens)
 //@   loop 1 invariant @C20 pc_ok(t) && 0 <= t.codeScanIndex && t.codeScanIndex <= t.pos.Index
 //@   loop 1 invariant @C20 forall(k, 0, len(t.lineStarts), t.lineStarts[k] >= 0)
 //@   loop 1 invariant @C20 look() >= 0 && cost() <= 2000*t.pos.Index + t.posCacheIndex + t.codeScanIndex + 400*look() + 100
@@ -248,6 +249,7 @@ package tokenizer
 //@   loop 1 invariant tz_ok(t) && len(tokens) <= MaxTokens
 //@   loop 1 decreases len(t.input) - t.pos.Index
 //@ func (*Tokenizer).TokenizeContext$1
+//@   loop 1 invariant @C09 isnew(tokens)
 //@   loop 1 invariant @C20 pc_ok(t) && 0 <= t.codeScanIndex && t.codeScanIndex <= t.pos.Index
 //@   loop 1 invariant @C20 forall(k, 0, len(t.lineStarts), t.lineStarts[k] >= 0)
 //@   loop 1 invariant @C20 look() >= 0 && cost() <= 2000*t.pos.Index + t.posCacheIndex + t.codeScanIndex + 400*look() + 100
